@@ -3,6 +3,7 @@
   (`Hidi/Gen/Bodies.lean`, regenerated on every run) computes what the hand-written model function computes.
 -/
 import Hidi.Gen.Bodies
+set_option linter.unusedSimpArgs false
 namespace Hidi.BodiesTie
 open Hidi Hidi.GoLite Hidi.Gen
 
